@@ -12,6 +12,7 @@ structure Head where
   epoch : Nat
   members : Nat
   nameLen : Nat
+  nid : Nat                 -- the nostr group id in force (number assigned by the harness at first occurrence)
   deriving Inhabited
 
 structure WInfo where
@@ -83,9 +84,13 @@ def view (s : St) (j : Nat) : String :=
       let su := if r.selfUpd == 0 then "r" else "c"
       let relays := (alookup g c.store.relays).getD []
       let nmsgs := (groupMsgs c.store g).length
-      some s!"G{g}:{stChar r.state}:E{r.epoch}:{mls}:SU{su}:N{r.nameLen}:D{r.descLen}:A{r.admins}:R{natList relays}:L{if r.lastId.isSome then "y" else "-"}:X{nmsgs}"
+      -- routing: the record the store answers for this nostr group id
+      let routed := match findGroupNostr c.store r.nid with
+        | some x => if x.gid == g then "" else "!other"
+        | none => "!none"
+      some s!"G{g}:{stChar r.state}:E{r.epoch}:{mls}:SU{su}:N{r.nameLen}:D{r.descLen}:A{r.admins}:R{natList relays}:L{if r.lastId.isSome then "y" else "-"}:X{nmsgs}:I{r.nid}{routed}"
   let ws := sortBy (fun (a b : Store.Welcome) => a.id < b.id) c.store.welcomes
-  let wparts := ws.map fun w => s!"W{w.id}:{wStChar w.state}:{wrapperName w.wrapper}:g{w.gid}:m{w.memberCount}"
+  let wparts := ws.map fun w => s!"W{w.id}:{wStChar w.state}:{wrapperName w.wrapper}:g{w.gid}:m{w.memberCount}:i{w.nid}"
   let used := (alookup j s.used).getD []
   let pparts := used.filterMap fun (w, salt) =>
     match findPw c.store (wrapperOf w salt) with
@@ -100,7 +105,7 @@ def head (s : St) (g : Nat) : Head := (alookup g s.heads).getD default
     commit is one message for all members it adds, so each of them can decode every rumor of that commit -/
 def addWelcomes (s : St) (i g : Nat) (kps ws : List Nat) (h : Head) : St :=
   (kps.zip ws).foldl (fun s (kp, w) =>
-    let inv : Invite := { rid := some s.nextRid, shape := 0, gid := g, nid := 100 + g, nameLen := h.nameLen, descLen := 3,
+    let inv : Invite := { rid := some s.nextRid, shape := 0, gid := g, nid := h.nid, nameLen := h.nameLen, descLen := 3,
                           admins := 1, relays := [1, 2], epoch := h.epoch, tok := h.tok, members := h.members, welcomer := i }
     let _ := kp
     { s with welcomes := ainsert w { recipients := kps.map (· / 2), inv := inv } s.welcomes, nextRid := s.nextRid + 1 }) s
@@ -138,20 +143,21 @@ def n (x : String) : Nat := x.toNat?.getD 0
 
 def exec (s : St) (t : List String) : St × String :=
   match t with
-  | ["group", i, nameLen, kps, g, ws, epoch, tok, members] =>
-    let h : Head := { tok := n tok, epoch := n epoch, members := n members, nameLen := n nameLen }
+  | ["group", i, nameLen, kps, g, ws, epoch, tok, members, nid] =>
+    let h : Head := { tok := n tok, epoch := n epoch, members := n members, nameLen := n nameLen, nid := n nid }
     let s := { s with heads := ainsert (n g) h s.heads, ngroups := max s.ngroups (n g + 1) }
     (addWelcomes s (n i) (n g) (natsOf kps) (natsOf ws) h, "ok | -")
-  | ["forge", i, g, kp, tmpl, w, epoch, tok, members] =>
+  | ["forge", i, g, kp, tmpl, w, epoch, tok, members, nid] =>
     -- a new MLS group with the id of g and the group data of the forger's own group tmpl
-    let inv : Invite := { rid := some s.nextRid, shape := 0, gid := n g, nid := 100 + n tmpl, nameLen := (head s (n tmpl)).nameLen,
+    let inv : Invite := { rid := some s.nextRid, shape := 0, gid := n g, nid := n nid, nameLen := (head s (n tmpl)).nameLen,
                           descLen := 3, admins := 1, relays := [1, 2], epoch := n epoch, tok := n tok, members := n members, welcomer := n i }
     ({ s with welcomes := ainsert (n w) { recipients := [n kp / 2], inv := inv } s.welcomes, nextRid := s.nextRid + 1 }, "ok | -")
-  | [op, i, g, arg, ev, ws, epoch, tok, members] =>
-    -- invite / commit / rename / remove by a member that is up to date
+  | [op, i, g, arg, ev, ws, epoch, tok, members, nid] =>
+    -- invite / commit / rename / remove / rotate / rotonto by a member that is up to date; the wrapper event carries
+    -- the nostr group id in force BEFORE the commit
     let old := head s (n g)
-    let h : Head := { tok := n tok, epoch := n epoch, members := n members, nameLen := if op == "rename" then n arg else old.nameLen }
-    let k : Commit := { gid := n g, nid := 100 + n g, fromTok := old.tok, toTok := h.tok, toEpoch := h.epoch, members := h.members,
+    let h : Head := { tok := n tok, epoch := n epoch, members := n members, nameLen := if op == "rename" then n arg else old.nameLen, nid := n nid }
+    let k : Commit := { gid := n g, nid := old.nid, toNid := h.nid, fromTok := old.tok, toTok := h.tok, toEpoch := h.epoch, members := h.members,
                         nameLen := h.nameLen, removesMe := false }
     let removed := if op == "remove" then natsOf arg else []
     let s := { s with heads := ainsert (n g) h s.heads, events := ainsert (n ev) { commit := k, removed := removed } s.events }
@@ -178,16 +184,15 @@ def exec (s : St) (t : List String) : St × String :=
       match alookup (n w) s.events with
       | none => (s, s!"nocommit | {view s (n j)}")
       | some e =>
-        match applyCommit (client s (n j)) { e.commit with removesMe := e.removed.contains (n j) } with
-        | none => (s, s!"nocommit | {view s (n j)}")
-        | some c => let s := setClient s (n j) c; (s, s!"commit | {view s (n j)}")
+        let (c, r) := deliverCommit (client s (n j)) { e.commit with removesMe := e.removed.contains (n j) }
+        let s := setClient s (n j) c
+        (s, s!"{if r == .applied then "commit" else "nocommit"} | {view s (n j)}")
     else (s, "bad-op | -")
   | ["probe", j, g, _i] =>
     let s := { s with seq := s.seq + 1 }
-    if canDecrypt (client s (n j)) (n g) (100 + n g) (head s (n g)).tok then
-      let s := setClient s (n j) (storeProbe (client s (n j)) (n g) s.seq)
-      (s, s!"app | {view s (n j)}")
-    else (s, s!"noapp | {view s (n j)}")
+    let (c, ok) := deliverApp (client s (n j)) (n g) (head s (n g)).nid (head s (n g)).tok s.seq
+    let s := setClient s (n j) c
+    (s, s!"{if ok then "app" else "noapp"} | {view s (n j)}")
   | ["view", j] => (s, s!"ok | {view s (n j)}")
   | _ => (s, "bad-op | -")
 
